@@ -201,8 +201,26 @@ func gen(g *common.Gen) {
 			flavour += " sib=" + strings.Join(sibs, ",")
 			g.Stat("producer-sibling-handler")
 		}
+		// 1 in 5 histories: the CONSUMER side runs on the real basic.Engine, half on a harness-owned face whose
+		// Send can be made to fail persistently (sendfail=), half on the real StreamFace over an in-memory pipe
+		cfaceH, cfaceStream := false, false
+		if r.Chance(1, 5) {
+			g.Stat("consumer-real-engine")
+			if r.Chance(1, 2) {
+				flavour += " ceng=basic cface=h"
+				cfaceH = true
+			} else {
+				flavour += " ceng=basic cface=stream"
+				cfaceStream = true
+				g.Stat("consumer-stream-face")
+			}
+		}
 		g.Op("new serve=%s%s", serve, flavour)
 		g.Stat("serve-" + serve)
+		if cfaceStream && r.Chance(1, 2) {
+			genTail(r, g, &seed)
+			continue
+		}
 		if r.Chance(1, 8) {
 			genQueued(r, g, &seed)
 			genDirect(r, g)
@@ -303,7 +321,13 @@ func gen(g *common.Gen) {
 				g.Stat("consume-versioned-name")
 			}
 			capx := common.Pick(r, []int{0, 0, 1, 4})
-			g.Op("consume name=%s script=%s cap=%d", nm, genScript(r, g, nseg), capx)
+			sf := ""
+			if cfaceH && r.Chance(1, 2) {
+				// the consumer's connection breaks: the n-th and all later Sends of its face fail
+				sf = fmt.Sprintf(" sendfail=%d", common.Pick(r, []int{0, 1, 2, 3, 4, 6, 12}))
+				g.Stat("consumer-send-fails")
+			}
+			g.Op("consume name=%s script=%s cap=%d%s", nm, genScript(r, g, nseg), capx, sf)
 			g.Stat("consume")
 			if capx > 0 {
 				g.Stat("consume-name-with-spare-capacity")
@@ -534,4 +558,36 @@ func genQueued(r *common.Rand, g *common.Gen, seed *uint64) {
 	g.Stat("consume-concurrent")
 	g.Op("get name=%s pfx=1", b)
 	g.Op("consume name=%s script=- cap=0", b)
+}
+
+// short last segment arriving first (consumer on the real StreamFace): object A of k*8000+r bytes (r small: the
+// last segment's Data is a small packet), its LAST segment is delivered before the earlier ones, and another
+// small packet (metadata / segment of a small object B fetched concurrently) arrives in between.
+func genTail(r *common.Rand, g *common.Gen, seed *uint64) {
+	a, b := "/8:6f/8:61", "/8:6f/8:62"
+	k := r.Range(2, 4)
+	sizeA := k*8000 + common.Pick(r, []int{1, 2, 7, 100, 250, 400, 430})
+	sizeB := common.Pick(r, []int{1, 50, 120, 300})
+	g.Op("produce name=%s ver=%s size=%d seed=%d split=%d cap=0", a, common.Pick(r, []string{"1", "7", "300"}), sizeA, *seed, sizeA)
+	*seed++
+	g.Op("produce name=%s ver=2 size=%d seed=%d split=%d cap=0", b, sizeB, *seed, sizeB)
+	*seed++
+	g.Stat("tail-last-segment-first")
+	var sa []string
+	for j := 1; j < k; j++ {
+		sa = append(sa, fmt.Sprintf("%d:d%d", j, r.Range(300, 800)))
+	}
+	sa = append(sa, fmt.Sprintf("%d:d", k)) // the last segment comes back at once
+	if r.Chance(1, 3) {
+		sa = append(sa, fmt.Sprintf("%d:%s", r.Range(1, k-1), common.Pick(r, []string{"i.d300", "x.d"})))
+	}
+	sb := fmt.Sprintf("m:d%d;0:d%d", r.Range(40, 120), r.Range(20, 150))
+	if r.Chance(1, 2) {
+		g.Op("consume name=%s script=%s name2=%s script2=%s cap=0", a, strings.Join(sa, ";"), b, sb)
+	} else {
+		g.Op("consume name=%s script=%s name2=%s script2=%s cap=0", b, sb, a, strings.Join(sa, ";"))
+	}
+	g.Stat("consume-concurrent")
+	g.Op("consume name=%s script=%s cap=0", a, genScript(r, g, k+1))
+	g.Op("get name=%s pfx=1", a)
 }
